@@ -188,6 +188,16 @@ func genValue(t *rapid.T, label string) string {
 		}
 		s = strings.TrimSpace(s)
 	}
+	if rapid.IntRange(0, 13).Draw(t, label+"-template") == 0 {
+		// text that means something to a shell, a template engine or a format function means nothing here
+		mid := rapid.SampledFrom([]string{"${HOME}", "$HOME", "${x}", "${}", "$(id)", "`id`", "%s", "%d%%", "%(name)s", "{{x}}", "{0}", "<% x %>", "~/x", "*.pem", "$$", "&amp;", "%41", "\\${PATH}"}).Draw(t, label+"-tplmid")
+		if n <= 24 && rapid.Bool().Draw(t, label+"-tplshort") {
+			s = "cost " + mid + " z"
+		} else {
+			s = s + " " + mid
+		}
+		s = strings.TrimSpace(s)
+	}
 	if rapid.IntRange(0, 11).Draw(t, label+"-backslash") == 0 {
 		// a backslash that does not stand in front of a separator is a character like any other (domain\user, a path,
 		// something that looks like an escape sequence of another syntax): the text stays as written
